@@ -460,7 +460,7 @@ class ExprMixin:
         if k == "set":
             return z3.Select(cont.term, self.coerce(item, cont.ty.args[0], line).term)
         if k == "list":
-            i = z3.Const(f"ini{line}", z3.IntSort())
+            i = z3.Const(f"ini${len(self.binders)}", z3.IntSort())
             n = self.list_len(cont)
             el = SV(self.list_get(cont, i), cont.ty.args[0])
             return self._q("exists", i, z3.And(0 <= i, i < n, self.py_eq(el, item, line)))
